@@ -338,6 +338,9 @@ func RunCheck(p *Program, cfg *CheckConfig, seed int) int {
 	var lines []string
 	violations := 0
 	replayDir := filepath.Join(cfg.VerifDir, "replays", cfg.Property)
+	if cfg.Only == "" {
+		_ = os.RemoveAll(replayDir) // replay files describe the latest run only
+	}
 	for _, f := range failures {
 		if k := kf.Match(cfg.Property, f.Obl.Name); k != nil {
 			lines = append(lines, fmt.Sprintf("KNOWN-FINDING: property=%s %s [%s]", cfg.Property, k.What, f.Obl.Name))
